@@ -3,7 +3,7 @@
 import glob, json, os, re
 HERE = os.path.dirname(os.path.abspath(__file__))
 rows = []
-n = caught0 = caught1 = notc = 0
+n = caught0 = caught1 = notc = missed = 0
 for d in sorted(glob.glob(os.path.join(HERE, "seeded", "C*-*"))):
     m = json.load(open(os.path.join(d, "meta.json")))
     v = m.get("verif", {})
@@ -12,6 +12,8 @@ for d in sorted(glob.glob(os.path.join(HERE, "seeded", "C*-*"))):
     n += 1
     if v.get("kept") is False:
         res = "not counted: the property still holds (see below)"; notc += 1
+    elif v.get("not_caught"):
+        res = "NOT CAUGHT: masked by an open finding (see below)"; missed += 1
     else:
         res = "caught by " + ", ".join(v.get("caught_by", []))
         if v.get("initially_missed"):
@@ -19,10 +21,10 @@ for d in sorted(glob.glob(os.path.join(HERE, "seeded", "C*-*"))):
         else:
             caught0 += 1
     rows.append("| %s | %s | %s |" % (name, summ, res))
-table = "| seed | change | result |\n|---|---|---|\n" + "\n".join(rows) + "\n\nTotals: %d changes; %d caught at once, %d caught after a generator was widened, %d not counted.\n" % (n, caught0, caught1, notc)
+table = "| seed | change | result |\n|---|---|---|\n" + "\n".join(rows) + "\n\nTotals: %d changes; %d caught at once, %d caught after a generator was widened, %d not caught, %d not counted.\n" % (n, caught0, caught1, missed, notc)
 p = os.path.join(HERE, "DESIGN.md")
 s = open(p).read()
 a = s.index("<!-- SEEDED-TABLE-BEGIN -->") + len("<!-- SEEDED-TABLE-BEGIN -->\n")
 b = s.index("<!-- SEEDED-TABLE-END -->")
 open(p, "w").write(s[:a] + table + s[b:])
-print(n, caught0, caught1, notc)
+print(n, caught0, caught1, missed, notc)
